@@ -346,6 +346,7 @@ func RunCheck(o CheckOpts) int {
 
 	cs.AssumeProp = o.Property
 	contractErrors = nil
+	contractErrInfo = nil
 	fnames := functionsFor(prog, cs, o.Property)
 	type job struct {
 		fr *FuncResult
@@ -497,16 +498,19 @@ func RunCheck(o CheckOpts) int {
 	// obligations may depend on them (a loop invariant, a ghost update), so
 	// their failure says nothing about the code.
 	staleContract := map[string]string{}
+	staleGhost := map[string][]string{}
 	if ledgerObs != nil {
-		for _, m := range contractErrors {
-			if !strings.Contains(m, "unknown identifier") {
+		for _, ce := range contractErrInfo {
+			if !strings.Contains(ce.Msg, "unknown identifier") {
 				continue
 			}
-			if i := strings.LastIndex(m, "[while verifying "); i >= 0 {
-				fn := strings.TrimSuffix(m[i+len("[while verifying "):], "]")
-				if _, ok := staleContract[fn]; !ok {
-					staleContract[fn] = m
+			switch {
+			case ce.Class == "basis":
+				if _, ok := staleContract[ce.Func]; !ok {
+					staleContract[ce.Func] = ce.Msg
 				}
+			case strings.HasPrefix(ce.Class, "ghost:"):
+				staleGhost[ce.Func] = append(staleGhost[ce.Func], strings.TrimPrefix(ce.Class, "ghost:"))
 			}
 		}
 	}
@@ -540,6 +544,9 @@ func RunCheck(o CheckOpts) int {
 	// ghost variable at its initial value: assertions that read that variable
 	// cannot be trusted (the others can)
 	missingGhost := map[string][]string{}
+	for f, gs := range staleGhost {
+		missingGhost[f] = append(missingGhost[f], gs...)
+	}
 	if ledgerObs != nil {
 		for _, ob := range obs {
 			if ob.Kind == "anchor" && (ob.Result == "failed" || ob.Result == "unknown") {
